@@ -30,16 +30,16 @@ def scan_cheats(path):
                 out.append('%d: %s' % (n, t[:160])); break
     return out
 
-def run_one(unit, repo, workdir, cfg, canary=False, rlimit=None):
+def _run_once(unit, repo, workdir, cfg, canary=False, rlimit=None, skip_bodies=()):
     """Returns dict(status=ok|fail|undecided, failures=[...], verified, errors, reason, times)"""
     name = unit['name'] + '_' + cfg_tag(cfg) + ('_canary' if canary else '')
     out_rs = os.path.join(workdir, name + '.rs')
     res = dict(unit=unit['name'], cfg=cfg, canary=canary, file=out_rs, failures=[], undecided=[], verified=0, errors=0)
     t0 = time.time()
     try:
-        meta = extract.build_unit(unit, repo, cfg, out_rs, canary=canary)
+        meta = extract.build_unit(unit, repo, cfg, out_rs, canary=canary, skip_bodies=skip_bodies)
     except extract.ExtractError as e:
-        res.update(status='undecided', reason='extract: %s' % e)
+        res.update(status='undecided', reason='extract: %s' % e, blame_fn=getattr(e, 'fn', None))
         return res
     except Exception as e:  # parser robustness: never an alarm
         res.update(status='undecided', reason='extract crashed: %r' % e)
@@ -100,6 +100,7 @@ def run_one(unit, repo, workdir, cfg, canary=False, rlimit=None):
             res['failures'].append(info)
         else:
             res['undecided'].append('%s @ %s' % (msg[:300], info['src'] or info['lines']))
+            if info['fn'] and not res.get('blame_fn'): res['blame_fn'] = info['fn']
     if vr.get('encountered-vir-error'):
         res['undecided'].append('verus reported a VIR (front-end) error')
     if res['undecided'] and not res['failures']:
@@ -112,6 +113,22 @@ def run_one(unit, repo, workdir, cfg, canary=False, rlimit=None):
         res.update(status='undecided', reason='verus did not report success and gave no semantic diagnostic: exit %d %s' % (p.returncode, p.stderr[-1500:]))
     res['cheats'] = scan_cheats(out_rs)
     return res
+
+
+def run_one(unit, repo, workdir, cfg, canary=False, rlimit=None):
+    """Run the unit; when a function body cannot be handled (lost in-body anchor, construct the verifier does not support)
+    retry with that body left unverified (external_body, contract kept), so that the rest of the unit is still decided.
+    The functions given up are returned in res['gave_up'] - properties that depend on them are undecided, never violated."""
+    gave_up = []
+    r = None
+    for _ in range(4):
+        r = _run_once(unit, repo, workdir, cfg, canary=canary, rlimit=rlimit, skip_bodies=gave_up)
+        fn = r.get('blame_fn')
+        if r['status'] == 'undecided' and fn and fn not in gave_up:
+            gave_up.append(fn); continue
+        break
+    r['gave_up'] = gave_up
+    return r
 
 def _canary_one(args):
     unit_path, repo, workdir, cfg, key = args
